@@ -150,6 +150,14 @@ def shared(ctx):
     # must never give the same step (C17.R2: the step is the exact formula in the vote; R3: no truncation / wrap on the way)
     from rules.props import c17
     core.import_rules(ctx, [c17.r2_formula, c17.r3_no_wrap], "X17")
+    # 'every block produced from an honestly built sealed state is accepted by its parent': the proposer validates one transaction at a time, the parent the whole batch;
+    # the two must apply the same rules — for the stake lock this is C13.R3 (in-state and in-batch locks cover the same outputs)
+    from rules.props import c13
+    core.import_rules(ctx, [c13.r3_lock_gate], "X13")
+    # 'succeeds exactly when all of the block's transactions are valid against that state': the batch validates every member against the pre-block state, so two
+    # members spending one coin are told apart only by the batch-wide duplicate-input gate (C02.R3) and inputs created inside the block by C02.R2
+    from rules.props import c02
+    core.import_rules(ctx, [c02.r2_input_resolution, c02.r3_double_spend], "X02")
 
 
 def r4_action_committed(ctx):
